@@ -76,6 +76,10 @@ EXPERIMENTS = [
       ("64", "uval -= digit * x;", "uval = uval - digit * x;")]),
     ("R7", "rewrite", "32 bit: sign test `(int32_t) val <= 0` (equivalent here: val != 0 in this branch; the first version of the proofs broke on it, the harness found no failing input)",
      [("32", "((int32_t) val < 0)", "((int32_t) val <= 0)")]),
+    # ---- an independent behaviour-preserving rewrite with constructs outside the subset (static helpers taking a `char`, called
+    # inside the loops; `>>`, `~`, `%=`; other loop variables): must be REFUSED, the tie degrades, the check stays green
+    ("U1", "outside-subset", "tools/c2lean_intfmt_r3.diff: if-chain, `(val >> 31) != 0`, `~val + 1`, `uval < x`, `uval %= x`, for(;;) / while, ADD_CHAR as static helper functions, `ubase` local",
+     "DIFF:" + os.path.join(HERE, "c2lean_intfmt_r3.diff")),
     # ---- semantic changes: a proof must break
     ("B1", "break", "32 bit: the digit of zero stored without the `pos < len` test", [("32", "ADD_CHAR('0');", "str[pos++] = '0';")]),
     ("B3", "break", "32 bit: initial divisor for base 8 is 0x20000000", [("32", "x = 0x40000000L;", "x = 0x20000000L;")]),
@@ -129,7 +133,14 @@ def main():
         for eid, kind, desc, edits in EXPERIMENTS:
             if want and eid not in want:
                 continue
-            open(UTILS, "w", encoding="latin-1").write(apply(orig, edits, eid))
+            open(UTILS, "w", encoding="latin-1").write(orig)
+            sh(["git", "-C", SCRATCH, "checkout", "--", "."])
+            if isinstance(edits, str):
+                a = sh(["git", "-C", SCRATCH, "apply", edits[5:]])
+                if a.returncode != 0:
+                    sys.exit("%s: %s" % (eid, a.stderr))
+            else:
+                open(UTILS, "w", encoding="latin-1").write(apply(orig, edits, eid))
             cc = sh(["gcc", "-fsyntax-only", "-I" + SCRATCH + "/libscpi/inc", "-I" + SCRATCH + "/libscpi/src", UTILS])
             tr = sh([sys.executable, os.path.join(VERIF, "translate", "c2lean_intfmt.py")], env=env)
             try:
@@ -137,7 +148,7 @@ def main():
             except Exception:
                 failed = {"all": tr.stdout[-200:] + tr.stderr[-200:]}
             sh([sys.executable, os.path.join(VERIF, "translate", "extract.py"), "A"], env=env)   # Gen/Tables.lean of the changed source
-            b = sh(["lake", "build", "ScpiVerif.Props.C14Gen"], cwd=os.path.join(VERIF, "lean"), env=env)
+            b = sh(["lake", "build", "ScpiVerif.Props.C14" if failed else "ScpiVerif.Props.C14Gen"], cwd=os.path.join(VERIF, "lean"), env=env)
             out = b.stdout + b.stderr
             bad = []
             for m in re.finditer(r"error: (ScpiVerif/[\w/]+\.lean):(\d+):\d+: (.*)", out):
@@ -153,7 +164,10 @@ def main():
                 lines = [l for l in c.stdout.splitlines() if l.startswith(("VIOLATION", "ok ", "FAIL ", "KNOWN"))]
                 row["check_exit"] = c.returncode
                 row["check_lines"] = [l[:400] for l in lines]
-            row["as_expected"] = (kind == "rewrite") == row["build_ok"] and not failed
+            if kind == "outside-subset":   # refused; nothing to build; with --full the check must stay green (degraded tie)
+                row["as_expected"] = bool(failed) and (not full or row.get("check_exit") == 0)
+            else:
+                row["as_expected"] = (kind == "rewrite") == row["build_ok"] and not failed
             rows.append(row)
             print(json.dumps(row), flush=True)
     finally:
